@@ -254,7 +254,9 @@ def tasks(tier):
 
 def meta(results, tier):
     return {'functions': {'verified_bodies': FUNCS, 'assumed_contracts': [], 'inlined': []},
-            'assumptions': ['int is mathematical', 'A-POSIX (os.linesep == "\\n", "/" separator)',
+            'assumptions': ['value classes are exact types; instances of SUBCLASSES of str/bytes/int/float belong to the class "other" on which '
+                            'isinstance tests against native types are outside the engine (undecided): covered by the native corpus only',
+                            'int is mathematical', 'A-POSIX (os.linesep == "\\n", "/" separator)',
                             'single client between store and fetch (concurrency is C05)',
                             'user stream read() yields its content in non-empty pieces then b""',
                             'JSONDisk: values outside the JSON-round-trippable domain are excluded (requires)',
